@@ -24,6 +24,9 @@ func subBig(a, b string) string { return new(big.Int).Sub(parseBig(a), parseBig(
 func (s *Session) execCall(st *State, c *ssa.CallCommon, instr ssa.Instruction, pos token.Pos, k func(st *State, res Value)) {
 	if instr != nil {
 		s.curSite = s.siteOf(st, instr)
+		if !st.fr.inline {
+			s.curInstr = instr
+		}
 	}
 	var args []Value
 	for _, a := range c.Args {
